@@ -592,3 +592,17 @@ Section FloatAtoms.
       rewrite std_roundtrip by assumption. reflexivity.
   Qed.
 End FloatAtoms.
+
+(* ---- the recorded defect class: a symbol that only the number-prefix path yields *)
+Lemma prefix_path_symbol_witness :
+  exists (t : text) (d : cell),
+    parse_text t = Ok (d, None) /\ (exists s, d = CSym s /\ ~ reader_symbol s) /\
+    parse_text (write d) <> Ok (d, None).
+Proof.
+  exists [35; 98; 49; 50], (CSym [49; 50]). split; [vm_compute; reflexivity|]. split.
+  - exists [49; 50]. split; [reflexivity|].
+    intros (c & r & E & [H|[H Hp]]); injection E as <- <-.
+    + vm_compute in H. discriminate.
+    + vm_compute in Hp. discriminate.
+  - vm_compute. discriminate.
+Qed.
